@@ -21,6 +21,10 @@ S3 ties (harness/c08_rangecoder.c vs. OpusModel.RangeCoder through Driver.SuiteR
                        patched flag word) in semantic form; model: OpusModel.SilkSymsEnc.packetOps (the order of enc_API.c) must
                        reproduce the exact bytes and final coder state; plus, model-free, the real silk_Decode run on those bytes
                        must read back exactly the recorded frames and end with the encoder's rng / ec_tell
+  rangecoder-opusframe harness/c08_silkpacket.c mode `oframe`: the REAL opus_encode forced to SILK-only mode (VBR, FEC on in 60% of the
+                       streams, mono/stereo, NB/MB/WB, 10-60 ms), same recording wrappers; model: OpusModel.OpusFrameEnc.silkOnlyFrame
+                       (SILK payload, ret=(ec_tell+7)>>3, ec_enc_done, trailing-zero strip) must reproduce the packet's payload
+                       bytes and OPUS_GET_FINAL_RANGE
 S4 search: the property predicates evaluated on the implementation alone (harness modes `search` / `prop`):
   P1 round trip when the encoder reports no error, P2 tell/tell_frac bounds, monotonicity, range invariant and
   encoder/decoder agreement, P3 guard bytes and bytes beyond the current storage untouched, P4 tell <= 8*storage
@@ -42,7 +46,8 @@ REQUIRED_THEOREMS = ['OpusProps.C08.rng_normalised', 'OpusProps.C08.tell_frac_bo
                      'OpusProps.C08.tell_monotone', 'OpusProps.C08.decode_encode', 'OpusProps.C08.lockstep_rng',
                      'OpusProps.C08.decode_encode_patched', 'OpusProps.C08.done_within_budget',
                      'OpusProps.C08.outside_untouched', 'OpusProps.C08.lockstep_symbols', 'OpusProps.C08.silk_flags_roundtrip', 'OpusProps.C08.laplace_pvq_roundtrip',
-                     'OpusProps.C08.tell_contracts', 'OpusProps.C08.bytes_below_tell', 'OpusProps.C08.silk_syms_roundtrip_frame', 'OpusProps.C08.silk_syms_roundtrip', 'OpusProps.C08.opus_frame_lockstep_silk']
+                     'OpusProps.C08.tell_contracts', 'OpusProps.C08.bytes_below_tell', 'OpusProps.C08.silk_syms_roundtrip_frame', 'OpusProps.C08.silk_syms_roundtrip', 'OpusProps.C08.opus_frame_lockstep_silk', 'OpusProps.C08.opus_frame_lockstep_silk_red',
+                     'OpusProps.C08.opus_frame_lockstep_hybrid']
 UNPROVED = []
 RULE = ('op sequences of length 1..4000 over all nine operation kinds (ec_encode, ec_encode_bin, ec_enc_bit_logp, ec_enc_icdf, '
         'ec_enc_icdf16, ec_enc_uint, ec_enc_bits, ec_enc_patch_initial_bits, ec_enc_shrink) drawn from the seed by a '
@@ -79,7 +84,15 @@ NOT_COVERED = [
     'model describes the operations that end up in the stream, and rangecoder-silkpacket skips (and counts) packets in which a frame '
     'was coded more than once; DTX / zero-length payloads and the redundancy / hybrid hand-over behind the SILK data are not modelled '
     'on the encoder side; pulses of value -128 (opus_int8 minimum, which (opus_int8)silk_abs mangles) are outside PulsesOk',
-    'the CELT symbol layer built on top of the coder (C03 stage 2, C17)',
+    'frame-level lock step (opus_frame_lockstep_silk / _silk_red / _hybrid): theorems about the op-level models of '
+    'opus_encode_frame_native (OpusModel/OpusFrameEnc.lean) and C03\'s decodeOpusFrame; only the SILK-only model without redundancy '
+    '(silkOnlyFrame) has a correspondence run (rangecoder-opusframe: real opus_encode payload bytes and final range); silkRedFrame / '
+    'hybridFrame have none (the implementation side of "decoder final range = encoder final range" is C02\'s lock-step search and '
+    'C03\'s ties); the CELT '
+    'symbol layer enters the _silk_red and _hybrid theorems only through the hypothesis CeltFrameRT (C17\'s celt_frame_roundtrip is '
+    'to discharge it) and the CELT encoder\'s operations on the shared coder are an input (`celtOps`); the decoder-side length '
+    'tests (hgate, hsane) are hypotheses — the contracts C02\'s redundancy_mirror theorems derive from the encoder skeleton; '
+    'the "SILK busted its target" fallback, DTX, DRED and the CELT-only mode are outside these theorems',
     'the non-table `#else` variant of ec_tell_frac and USE_SMALL_DIV_TABLE (not compiled on this target)',
     'streams longer than 4000 operations and buffers larger than 1275 bytes (the Lean theorems are not length-bounded; '
     'the correspondence run is)',
@@ -91,6 +104,8 @@ ASSUMPTIONS = [
     'the decoder is given exactly the first `storage` bytes the encoder finished (exact-size heap block under ASan) and '
     'mirrors the encoder call sequence with the same tables and parameters',
     'the number of carry-pending 0xFF bytes stays below 2^32 (ext counter), guaranteed by buffer sizes <= 1275',
+    'frame-level theorems: ec_enc_done leaves error = 0 and ec_tell <= 8*(max_data_bytes-1) (the encoder\'s normal path); for '
+    'patch-free runs the former follows from the latter (done_within_budget), for the patched SILK run it is kept as a hypothesis',
     'theorem hypothesis nbits_total < 2^32 (decode_encode, lockstep_rng, decode_encode_patched and the theorems built on them): '
     'nbits_total is a C int, an execution reaching 2^31 is signed overflow (undefined behaviour), so the hypothesis only '
     'says the C type range was respected; it is derived from size <= 5*10^8 in done_within_budget; the caller buffer '
@@ -109,6 +124,7 @@ QUICK_SEARCH, THOROUGH_SEARCH = 60000, 1000000
 QUICK_CODES, THOROUGH_CODES = 6000, 120000
 QUICK_SFRAME, THOROUGH_SFRAME = 3000, 60000
 QUICK_SPACKET, THOROUGH_SPACKET = 300, 5000     # streams of 3..14 packets
+QUICK_OFRAME, THOROUGH_OFRAME = 200, 3000       # streams of 3..12 packets
 SPACKET_WRAP = ['-Wl,' + ','.join('--wrap=' + f for f in ('silk_encode_indices', 'silk_encode_pulses', 'silk_stereo_encode_pred',
                                                             'silk_stereo_encode_mid_only', 'ec_enc_patch_initial_bits',
                                                             'silk_decode_indices', 'silk_decode_pulses'))]
@@ -163,6 +179,8 @@ def ties(ctx):
     hp = ctx.harness('c08_silkpacket', ['c08_silkpacket.c'], variant='san', extra=SPACKET_WRAP)
     out.append(_tidy(common.run_tie('rangecoder-silkpacket', [hp, 'rand', str(ctx.seed), str(QUICK_SPACKET if ctx.quick else THOROUGH_SPACKET)]),
                      'rangecoder:spacket:line'))
+    out.append(_tidy(common.run_tie('rangecoder-opusframe', [hp, 'oframe', str(ctx.seed), str(QUICK_OFRAME if ctx.quick else THOROUGH_OFRAME)]),
+                     'rangecoder:oframe:line'))
     return out
 
 
